@@ -677,8 +677,27 @@ func (m *Machine) model(fn *ssa.Function, args []Value, res ssa.Value) *modelRes
 		return ret(m.newModelError(fmt.Sprint(m.fmtModel(args))))
 	case "fmt.Println", "fmt.Printf", "fmt.Print":
 		return ret(TupleV{f.BVC(64, 0), &IfaceV{}})
-	case "log/slog.Error", "log/slog.Info", "log/slog.Warn", "log/slog.Debug":
-		return ret(nil)
+	case "log/slog.Error", "log/slog.Info", "log/slog.Warn", "log/slog.Debug",
+		"log.Printf", "log.Println", "log.Print", "(*log.Logger).Printf", "(*log.Logger).Println", "(*log.Logger).Print":
+		return ret(nil) // logging has an empty body (formatting is not the subject)
+	case "errors.Is":
+		// identity of the two error values (no Unwrap chains: the errors of the
+		// harnesses and of the models do not wrap)
+		t, _ := args[1].(*IfaceV)
+		e, _ := args[0].(*IfaceV)
+		if t == nil || e == nil {
+			unsupported("errors.Is on %T / %T", args[0], args[1])
+		}
+		if t.Tag == nil && t.Dyn == nil {
+			return ret(m.eq(e, &IfaceV{}))
+		}
+		return ret(m.eq(e, t))
+	case "runtime.GOMAXPROCS", "runtime.NumCPU":
+		// an arbitrary positive number of processors
+		v := m.freshVar("gomaxprocs", term.BV(64))
+		m.assume(f.SLe(f.BVC(64, 1), v))
+		m.assume(f.SLe(v, f.BVC(64, 64)))
+		return ret(v)
 	case "errors.New":
 		return ret(m.newModelError(fmt.Sprint(args[0])))
 
@@ -959,7 +978,25 @@ func (m *Machine) modelMethod(o *ModelV, name string, args []Value) Value {
 		if o.Ch == nil {
 			return &IfaceV{}
 		}
-		unsupported("ctx.Err")
+		if m.W.CtxCanceled == nil {
+			if m.procMode {
+				unsupported("ctx.Err first called inside a goroutine (the error value must exist at set-up)")
+			}
+			m.W.CtxCanceled = m.newModelError("context canceled")
+		}
+		if !m.procMode {
+			if o.Ch.Closed {
+				return m.W.CtxCanceled
+			}
+			return &IfaceV{}
+		}
+		// inside a goroutine: an atomic read of the context's state at this step
+		cl := m.bmcHooks.intrinsic(m, "verif.local/vrt.Closed", nil, []Value{&IfaceV{V: &ChanV{C: o.Ch}}}).v.(*term.T)
+		m.touched = append(m.touched, o.Ch)
+		if m.branch(cl, "ctx.Err") {
+			return m.W.CtxCanceled
+		}
+		return &IfaceV{}
 	case "ctx.Value":
 		return &IfaceV{}
 	case "randsrc.Int63", "rand.Int63":
